@@ -23,7 +23,7 @@ Definition tail_call_operands (s : vmstate) : list mval :=
 
 (* ------------------------------------------------------------------ a whole program with unbounded NON-tail recursion *)
 Definition deep_def : ident * expr :=
-  ("deep"%string, ELam ["n"%string] (EApp (EVar "+"%string) [EConst (KInt 1); EApp (EVar "deep"%string) [EVar "n"%string]])).
+  ("deep"%string, ELam ["n"%string] None (EApp (EVar "+"%string) [EConst (KInt 1); EApp (EVar "deep"%string) [EVar "n"%string]])).
 Definition deep_main : expr := EApp (EVar "deep"%string) [EConst (KInt 0)].
 
 Definition deep_code : list instr :=
